@@ -5,9 +5,14 @@
 package main
 
 import (
+	"context"
+	"encoding/hex"
+
 	"encoding/json"
 	"flag"
 	"fmt"
+	"github.com/cosmos/cosmos-sdk/client"
+	"github.com/tellor-io/layer/daemons/server/median"
 	"math/big"
 	"math/rand"
 	"os"
@@ -437,6 +442,90 @@ type barrier struct {
 	gen   int
 }
 
+// ---- what the daemon SERVES: the gRPC median server on top of the cache (GetMedianValue per query data, GetAllMedianValues) ----
+// Several markets with different exchanges, prices, minimum exchange counts and exponents; every price is either
+// fresh (stamped now) or stale (stamped three hours ago) against a maximum age of one hour - the server reads the wall
+// clock itself, so the margins are hours. Each market's answer must be that market's own median / its own error.
+func runServer(spec CaseSpec, st *stats) (viol []Violation) {
+	r := rand.New(rand.NewSource(spec.Seed*15485863 + int64(spec.Case)))
+	for rep := 0; rep < 40; rep++ {
+		nm := 2 + r.Intn(4)
+		mte := pricefeedtypes.NewMarketToExchangePrices(time.Hour)
+		now := time.Now()
+		var params []clienttypes.MarketParam
+		want := map[uint32]uint64{}
+		var req []*servertypes.MarketPriceUpdate
+		for m := 0; m < nm; m++ {
+			id := uint32(m*3 + 1)
+			mp := clienttypes.MarketParam{Id: id, Pair: fmt.Sprintf("M%d-USD", m), Exponent: int32(-2 - m), MinExchanges: uint32(1 + r.Intn(3)), MinPriceChangePpm: 1,
+				QueryData: fmt.Sprintf("%064X", uint64(0xabc000+m*17+rep))} // upper case: the server lower-cases its keys
+			var fresh []uint64
+			mpu := &servertypes.MarketPriceUpdate{MarketId: id}
+			for e := 0; e < maxExch; e++ {
+				if r.Intn(4) == 0 {
+					continue
+				}
+				price := uint64(1000*(m+1) + r.Intn(500))
+				ts := now
+				if r.Intn(3) == 0 {
+					ts = now.Add(-3 * time.Hour)
+				} else {
+					fresh = append(fresh, price)
+				}
+				t := ts
+				mpu.ExchangePrices = append(mpu.ExchangePrices, &servertypes.ExchangePrice{ExchangeId: exchanges[e], Price: price, LastUpdateTime: &t})
+			}
+			if len(mpu.ExchangePrices) > 0 {
+				req = append(req, mpu)
+			}
+			if len(fresh) > 0 && uint32(len(fresh)) >= mp.MinExchanges {
+				want[id] = medianRef(fresh)
+			}
+			params = append(params, mp)
+		}
+		mte.UpdatePrices(req)
+		srv := median.NewMedianValuesServer(client.Context{}, mte, params)
+		st.count("c20.server.instances", 1)
+		for i, mp := range params {
+			qd, _ := hex.DecodeString(mp.QueryData)
+			res, err := srv.GetMedianValue(context.Background(), &servertypes.GetMedianValueRequest{QueryData: qd})
+			w, served := want[mp.Id]
+			st.count("c20.server.single-market-queries", 1)
+			st.bucket("c20|server|markets=%d|position=%s|served=%v", nm, map[bool]string{true: "last", false: "not-last"}[i == len(params)-1], served)
+			switch {
+			case served && (err != nil || res == nil || res.MedianValues == nil):
+				viol = append(viol, Violation{Property: "C20", Monitor: "server", Sig: "no-price-served-although-enough-exchanges-are-fresh", Phase: "pricelab", Detail: map[string]interface{}{"market": mp.Id, "markets": nm, "position": i, "err": fmt.Sprint(err)}})
+			case served && (res.MedianValues.Price != w || res.MedianValues.MarketId != mp.Id || res.MedianValues.Exponent != mp.Exponent):
+				viol = append(viol, Violation{Property: "C20", Monitor: "server", Sig: "served-price-is-not-the-median-of-that-markets-fresh-prices", Phase: "pricelab",
+					Detail: map[string]interface{}{"asked_market": mp.Id, "got_market": res.MedianValues.MarketId, "got": res.MedianValues.Price, "want": w, "got_exponent": res.MedianValues.Exponent, "want_exponent": mp.Exponent, "markets": nm, "position": i}})
+			case !served && err == nil:
+				viol = append(viol, Violation{Property: "C20", Monitor: "server", Sig: "price-served-with-fewer-fresh-exchanges-than-the-minimum", Phase: "pricelab", Detail: map[string]interface{}{"market": mp.Id, "got": res.MedianValues.Price, "min": mp.MinExchanges, "markets": nm, "position": i}})
+			}
+			if len(viol) > 3 {
+				return
+			}
+		}
+		all, err := srv.GetAllMedianValues(context.Background(), &servertypes.GetAllMedianValuesRequest{})
+		if err == nil && all != nil {
+			got := map[uint32]uint64{}
+			for _, mv := range all.MedianValues {
+				got[mv.MarketId] = mv.Price
+			}
+			st.count("c20.server.all-market-queries", 1)
+			if len(got) != len(want) {
+				viol = append(viol, Violation{Property: "C20", Monitor: "server", Sig: "all-markets-answer-lists-other-markets-than-those-with-enough-fresh-exchanges", Phase: "pricelab", Detail: map[string]interface{}{"got": len(got), "want": len(want)}})
+			}
+			for id, w := range want {
+				if got[id] != w {
+					viol = append(viol, Violation{Property: "C20", Monitor: "server", Sig: "all-markets-answer-price-is-not-the-markets-median", Phase: "pricelab", Detail: map[string]interface{}{"market": id, "got": got[id], "want": w}})
+					break
+				}
+			}
+		}
+	}
+	return
+}
+
 func newBarrier(n int) *barrier {
 	b := &barrier{n: n}
 	b.cond = sync.NewCond(&b.mu)
@@ -618,6 +707,9 @@ func main() {
 		res.Violations = viol
 		if i%4 == 1 {
 			res.Violations = append(res.Violations, runAtomicity(spec, st)...)
+		}
+		if i%4 == 3 {
+			res.Violations = append(res.Violations, runServer(spec, st)...)
 		}
 		if i%4 == 2 {
 			res.Violations = append(res.Violations, runFirstUpdates(spec, st, map[string]int{"quick": 6000, "thorough": 20000}[*tier])...)
